@@ -40,6 +40,11 @@ PROGRAMS = {
     "string-intern": "const parts = []; for (let i = 0; i < 20; i++) parts.push('k' + (i % 5)); const o = {}; parts.forEach(p => o[p] = (o[p] || 0) + 1); JSON.stringify(o)",
     "json-roundtrip": "const d = {z: [1, {y: 2}], a: 'é', n: null}; JSON.stringify(JSON.parse(JSON.stringify(d)))",
     "regexp": "const r = /(\\w)(\\d)/g; const out = []; let m; while ((m = r.exec('a1 b2 c3'))) out.push(m[1] + m[2] + m.index); out.join()",
+    # the point where recursion through built-ins gets its RangeError is a constant of the program: it must not move
+    # with the native stack position the host steps from, whatever crossed a native frame earlier
+    "stack-probe-after-caught-throw": "import { order } from 'tsrun:host'; let first = 'none'; try { [1].forEach(() => { throw new Error('x'); }); } catch (e) { first = 'caught'; } await order('pause'); let depth = 0; function rec(){ depth++; [1].forEach(rec); } try { rec(); } catch (e) { first += ':' + (e instanceof RangeError); } first + '|' + depth",
+    "stack-probe-after-sort-throw": "import { order } from 'tsrun:host'; let n = 0; try { [3, 1, 2].sort(() => { throw new TypeError('cmp'); }); } catch (e) { n++; } try { JSON.parse('[1]', () => { throw 1; }); } catch (e) { n++; } await order('p1'); await order('p2'); function depth(k){ try { return [k].map(x => depth(x + 1))[0]; } catch (e) { return k; } } n + '|' + depth(0)",
+    "stack-probe-plain": "import { order } from 'tsrun:host'; await order('pause'); let depth = 0; function rec(){ depth++; [1].forEach(rec); } try { rec(); } catch (e) { depth = -depth; } await order('again'); let d2 = 0; function rec2(){ d2++; [1].map(rec2); } try { rec2(); } catch (e) {} depth + '|' + d2",
     "proxy-reflect": "const log = []; const p = new Proxy({}, {get(t, k){ log.push(String(k)); return 1; }}); p.a + p.b; Reflect.ownKeys({x: 1, [Symbol.iterator]: 2}).length + log.join()",
 }
 
@@ -61,7 +66,11 @@ def run(tier, seed):
                 pairs.append((a, b))
     pairs.append(("orders", "orders"))
     pairs.append(("map-object-keys", "map-object-keys"))
-    cs = [{"id": "il|%s|%s" % (a, b), "a": mk(PROGRAMS[a]), "b": mk(PROGRAMS[b]), "switches": 2 if tier == "quick" else 3, "stride": 7 if tier == "quick" else 9, "max_schedules": 20000 if tier == "quick" else 60000} for a, b in pairs]
+    for pr in [n for n in names if n.startswith("stack-probe")]:
+        for other in ("compute", "orders", pr):
+            if (pr, other) not in pairs and (other, pr) not in pairs:
+                pairs.append((pr, other))
+    cs = [{"id": "il|%s|%s" % (a, b), "a": mk(PROGRAMS[a]), "b": mk(PROGRAMS[b]), "switches": 2 if tier == "quick" else 3, "stride": 7 if tier == "quick" else 9, "max_schedules": 20000 if tier == "quick" else 60000, "displace_kib": 256} for a, b in pairs]
     res = core.run_batch(cs, sub_args=("iso", "interleave"), hang_s=900, as_gb=2)
     f = fam.setdefault("interleavings", {"pairs": 0, "schedules": 0, "bad": 0})
     for c in cs:
@@ -138,7 +147,7 @@ def run(tier, seed):
             chk.fail("layout|" + n, str(sorted(len(v) for v in ds.values())), "program %s: trace digest differs between processes / heap displacements: %s" % (n, {d: v[:3] for d, v in ds.items()}), {"kind": "layout", "program": n}, cluster="address-layout dependent: " + n)
     chk.coverage = {"states": states, "transitions": trans, "traces_validated_against_impl": states, "families": fam, "programs": len(names),
                     "samples": [{"pair": list(pairs[0]), "schedule": ["a:3", "b:5", "a:end", "b:end"]}, {"lifetime_history": ["Create(0)", "Abandon(0, 1)", "Create(1)", "Drop(0)"]}],
-                    "rule": "interleavings: both start orders, every pair of switch points on a stride of 7 (thorough: 3 switches, stride 9; widened per pair so that no pair exceeds 20 000 (60 000) schedules - see widest_stride_used) for the selected program pairs; lifetimes: all histories of depth <= 3 (4) over create/run/abandon/drop on 3 instance slots before a probe; threads: turnstile hand-over after 1 and 5 steps; layouts: heap displaced by k*16 bytes + a k*4096-byte block for k in 0..63 (quick: every 4th), ASLR off, environment padding. states = executions, transitions = host steps replayed"}
+                    "rule": "interleavings: both start orders, every pair of switch points on a stride of 7 (thorough: 3 switches, stride 9; widened per pair so that no pair exceeds 20 000 (60 000) schedules - see widest_stride_used) for the selected program pairs, each interpreter's segments alternating between the host's top frame and a frame 256 KiB deeper on the native stack (the solo reference runs from the top frame); lifetimes: all histories of depth <= 3 (4) over create/run/abandon/drop on 3 instance slots before a probe; threads: turnstile hand-over after 1 and 5 steps; layouts: heap displaced by k*16 bytes + a k*4096-byte block for k in 0..63 (quick: every 4th), ASLR off, environment padding. states = executions, transitions = host steps replayed"}
     chk.assumptions = ["address-layout nondeterminism is enumerated over a stated finite set of layouts only", "time and random providers are fixed by the harness"]
     return chk.finish(exhaustive=True)
 
